@@ -656,6 +656,15 @@ def isIntArgValid (valid : Str) (x : Int) : Res :=
   else if valid.contains '.' then isFloatArgValid valid (ofInt64 x)
   else scanInt x none (tokenize valid)
 
+/-- The decision of Token::getInvalidValue / CheckFunctions::invalidFunctionUsage for an argument whose value list
+is the single Known (not impossible, not inconclusive, unconditional) integer `x`:
+`some true` = invalidFunctionArg is reported (severity error), `some false` = silent, `none` = InternalError.
+How value flow arrives at that value list is outside the model. -/
+def reportsInvalidArg (valid : Str) (x : Int) : Option Bool :=
+  match isIntArgValid valid x with
+  | .ok b => some (!b)
+  | .err => none
+
 /-- what `Library::load` + isIntArgValid do with an `<arg><valid>` text: rejected at load time, or the verdict -/
 inductive Loaded | rejected | verdict (r : Res)
   deriving DecidableEq, Repr
